@@ -699,6 +699,33 @@ func goR024(c *Ctx, r *Repo, ip *packages.Package, rule string) {
 	}
 	c.Func(funcKey(ip, pp))
 	checkLookupNilGuard(c, r, ip, pp, rule)
+	// one visitor per file: the visitor whose list is examined for a file is created inside the loop
+	// over the package's files and walks exactly that file's syntax tree
+	files := rangeOverC(ip, pp, ".GoFiles")
+	okVisitor, okWalk := false, false
+	if files != nil {
+		fc := newFuncCanonG(ip, pp)
+		nNew := 0
+		ast.Inspect(pp.Body, func(n ast.Node) bool {
+			call, ok := n.(*ast.CallExpr)
+			if !ok {
+				return true
+			}
+			switch strings.ReplaceAll(calleeName(info, call), modPath+"/", "") {
+			case "internal.NewNodeVisitor":
+				nNew++
+				okVisitor = call.Pos() > files.Body.Pos() && call.End() < files.Body.End()
+			case "go/ast.Walk":
+				if len(call.Args) == 2 && call.Pos() > files.Body.Pos() && call.End() < files.Body.End() {
+					v, f := fc.E(call.Args[0]), fc.E(call.Args[1])
+					okWalk = strings.HasPrefix(v, "internal.NewNodeVisitor(") && strings.HasSuffix(f, ".Syntax[rangekey("+fc.E(files.X)+")]")
+				}
+			}
+			return true
+		})
+		okVisitor = okVisitor && nNew == 1
+	}
+	c.Check(okVisitor && okWalk, rule, "ParsePackages|visitor-per-file", r.Pos(pp.Pos()), "a fresh visitor walks each file's own syntax tree", "the visitor that collects candidate declarations is not created per file (inside the loop over the package's files) and walked over that file's syntax tree: names found in one file are reported again for the following files, so an interface is mocked more than once")
 }
 
 // checkLookupNilGuard: every `x := scope.Lookup(..)` in fd is followed by a nil
